@@ -196,6 +196,81 @@ def _ok_ref(site: str, r: str) -> bool:
     return False
 
 
+def inline_components(doc: dict) -> dict:
+    """Replace every reference to a component parameter / request body / response (transitively) by a copy of its target."""
+    import copy
+    comps = doc.get("components", {})
+
+    def resolve(ref: str, depth=0):
+        parts = ref.lstrip("#/").split("/")
+        if len(parts) != 3 or parts[0] != "components" or parts[1] not in ("parameters", "requestBodies", "responses") or depth > 8:
+            return None
+        tgt = comps.get(parts[1], {}).get(parts[2])
+        if isinstance(tgt, dict) and "$ref" in tgt:
+            return resolve(tgt["$ref"], depth + 1)
+        return copy.deepcopy(tgt) if isinstance(tgt, dict) else None
+
+    def walk(x):
+        if isinstance(x, dict):
+            if "$ref" in x and isinstance(x["$ref"], str):
+                t = resolve(x["$ref"])
+                if t is not None:
+                    return walk(t)
+            return {k: walk(v) for k, v in x.items()}
+        if isinstance(x, list):
+            return [walk(v) for v in x]
+        return x
+    out = copy.deepcopy(doc)
+    out["paths"] = walk(out.get("paths", {}))
+    return out
+
+
+def documents_leg(rep, d, quick: bool) -> None:
+    """Whole documents that use component parameters / request bodies / responses, generated as written and with every such reference
+    inlined: the api modules must be byte-identical."""
+    from ruamel.yaml import YAML
+
+    from ..common import REPO
+    from . import C05 as c05
+    S = {"type": "string"}
+    shared = {"TenantH": ("tenant", "header"), "TenantQ": ("tenant", "query"), "TenantC": ("tenant", "cookie"), "PageSizeQ": ("page_size", "query"),
+              "PageSizeH": ("Page-Size", "header"), "pagesizeQ": ("pageSize", "query"), "Limit": ("limit", "query"), "limit2": ("Limit", "query")}
+    paths = {}
+    order = list(shared) + list(reversed(list(shared)))
+    for k, c in enumerate(order):
+        paths[f"/s{k}"] = {"get": {"operationId": f"s{k}", "tags": ["t"], "parameters": [{"$ref": f"#/components/parameters/{c}"}],
+                                   "responses": {"200": {"$ref": "#/components/responses/Ok"}, "404": {"$ref": "#/components/responses/ok"}}}}
+    paths["/both"] = {"parameters": [{"$ref": "#/components/parameters/TenantH"}], "post": {"operationId": "both", "tags": ["t"], "parameters": [{"$ref": "#/components/parameters/TenantQ"}],
+                                                                                          "requestBody": {"$ref": "#/components/requestBodies/Body"}, "responses": {"200": {"$ref": "#/components/responses/Ok"}}},
+                      "put": {"operationId": "both2", "tags": ["t"], "requestBody": {"$ref": "#/components/requestBodies/body"}, "responses": {"200": {"$ref": "#/components/responses/Ok"}}}}
+    docs = {"shared-names": gen.mkdoc({"M": {"type": "object", "properties": {"m": S}}, "N": {"type": "object", "properties": {"n": {"type": "integer"}}}}, paths, components={
+        "parameters": {c: {"name": w, "in": loc, "schema": S if "imit" not in c else {"type": "integer"}} for c, (w, loc) in shared.items()},
+        "responses": {"Ok": {"description": "d", "content": {"application/json": {"schema": {"$ref": "#/components/schemas/M"}}}},
+                      "ok": {"description": "d", "content": {"application/json": {"schema": {"$ref": "#/components/schemas/N"}}}}},
+        "requestBodies": {"Body": {"content": {"application/json": {"schema": {"$ref": "#/components/schemas/M"}}}},
+                          "body": {"content": {"application/json": {"schema": {"$ref": "#/components/schemas/N"}}}}}}),
+            "maximal": c05.maximal_document()}
+    for name in (["baseline_openapi_3.0.json"] if quick else ["baseline_openapi_3.0.json", "baseline_openapi_3.1.yaml"]):
+        p = REPO / "end_to_end_tests" / name
+        if p.exists():
+            docs[name] = json.loads(p.read_text()) if name.endswith(".json") else YAML(typ="safe").load(p.read_bytes())
+    for dn, doc in docs.items():
+        inl = inline_components(doc)
+        if json.dumps(inl, sort_keys=True, default=str) == json.dumps(doc, sort_keys=True, default=str):
+            continue
+        a, b = d / f"docref-{len(dn)}{abs(hash(dn)) % 1000}", d / f"docinl-{len(dn)}{abs(hash(dn)) % 1000}"
+        g1, g2 = gen.generate(doc, a), gen.generate(inl, b)
+        rep.count(1, ("document", dn))
+        if g1["exc"] or g2["exc"] or g1["rejected"] != g2["rejected"]:
+            rep.violate(f"C20/document/{dn}/generation-differs", f"{dn}: by reference {g1['exc'] or g1['rejected']}, inlined {g2['exc'] or g2['rejected']}")
+            continue
+        s1, s2 = gen.snapshot(a, content=True), gen.snapshot(b, content=True)
+        diff = sorted(k for k in set(s1) | set(s2) if s1.get(k) != s2.get(k) and k.endswith(".py"))
+        if diff:
+            rep.violate(f"C20/document/{dn}/not-identical", f"{dn}: generated as written and with every component parameter / body / response inlined the clients differ in {diff[:5]}",
+                        files=diff[:10], by_reference=(s1.get(diff[0]) or b"").decode(errors="replace")[:2500], inline=(s2.get(diff[0]) or b"").decode(errors="replace")[:2500])
+
+
 def run(rep) -> None:
     quick = rep.tier == "quick"
     rnd = random.Random(seed() * 1033 + 20)
@@ -224,6 +299,7 @@ def run(rep) -> None:
             cases += r.printed
         schema_references(rep, cases, rnd, d, quick)
         malformed(rep, d)
+        documents_leg(rep, d, quick)
         # code -> spec: the resolution of references through the retry rounds, as recorded by the hooks, is a behaviour of Pipeline.tla
         tsample = rnd.sample(cases, 500 if quick else 5000)
         pipe.trace_batch(rep, [(pipe.concretize(c["doc"]), c["doc"]) for c in tsample], d, "C20",
